@@ -114,6 +114,8 @@ type Options struct {
 	TunnelIdent, ChordIdent *protocol.Node
 	// Retry wraps the VNode in chord.WrapRetryKV like the production wiring does.
 	Retry bool
+	// EmptyNonNil: the ring's storage answers absent keys with []byte{} instead of nil.
+	EmptyNonNil bool
 }
 
 func DefaultTunnelIdent() *protocol.Node {
@@ -145,6 +147,7 @@ func NewLab(o Options) (*Lab, error) {
 		if err != nil {
 			return nil, err
 		}
+		r.KV.EmptyNonNil = o.EmptyNonNil
 		l.Ring = r
 		vn = r.Node
 	}
